@@ -27,7 +27,7 @@ def witness_search(tier, seed):
     vals = [None, "", "a", "x:y", "a;b", "c\\d", "e//f", "line1\nline2", " sp "]
     keys = ["TITLE", "ATTACKS", "DISPLAYBPM", "FOO"]
     for k, v in itertools.product(keys, vals):
-        for extra in (None, ["x", "y:z"]):
+        for extra in (None, ["x", "y:z"], [" padded ", "\n  line\n"]):
             sf = SMSimfile.blank()
             sf[k] = v
             ch = SMChart.blank()
